@@ -1099,7 +1099,10 @@ pub fn gen_plan(seed: u64, backend: Backend, entry: Entry, focus: Focus, thoroug
     };
     let max_payload = match focus {
         Focus::Payloads => {
-            if thorough {
+            // a few runs carry bodies of exactly 2, 3 and 4 MiB (multiples of typical I/O chunk sizes)
+            if r.chance(if thorough { 12 } else { 6 }, 100) {
+                (4 << 20) + 1
+            } else if thorough {
                 (1 << 20) + 2
             } else {
                 600_000
